@@ -38,6 +38,58 @@ use rarena_allocator::{
   Owned, RefMut,
 };
 
+/// Which of the crate's public types may cross / be shared between threads (`seq traits`): evaluated by
+/// the compiler for the current tree, printed as one line per type.
+pub mod autotraits {
+  use super::*;
+  use std::marker::PhantomData;
+
+  pub struct Probe<T: ?Sized>(PhantomData<T>);
+  pub trait No {
+    const SEND: bool = false;
+    const SYNC: bool = false;
+  }
+  impl<T: ?Sized> No for Probe<T> {}
+  // inherent constants win over the trait's when their bound holds
+  #[allow(dead_code)]
+  impl<T: ?Sized + Send> Probe<T> {
+    pub const SEND: bool = true;
+  }
+  #[allow(dead_code)]
+  impl<T: ?Sized + Sync> Probe<T> {
+    pub const SYNC: bool = true;
+  }
+
+  macro_rules! row {
+    ($out:ident, $name:expr, $t:ty) => {
+      $out.push(format!("type={} send={} sync={}", $name, <Probe<$t>>::SEND as u8, <Probe<$t>>::SYNC as u8));
+    };
+  }
+
+  /// a `Send` payload and one that is neither `Send` nor `Sync`
+  type Plain = u64;
+  type Local = std::rc::Rc<u8>;
+
+  pub fn table() -> Vec<String> {
+    let mut out = Vec::new();
+    row!(out, "sync::Arena", sync::Arena);
+    row!(out, "unsync::Arena", unsync::Arena);
+    row!(out, "BytesMut<sync>", BytesMut<sync::Arena>);
+    row!(out, "BytesMut<unsync>", BytesMut<unsync::Arena>);
+    row!(out, "BytesRefMut<sync>", BytesRefMut<'static, sync::Arena>);
+    row!(out, "BytesRefMut<unsync>", BytesRefMut<'static, unsync::Arena>);
+    row!(out, "Owned<plain,sync>", Owned<Plain, sync::Arena>);
+    row!(out, "Owned<plain,unsync>", Owned<Plain, unsync::Arena>);
+    row!(out, "Owned<local,sync>", Owned<Local, sync::Arena>);
+    row!(out, "Owned<local,unsync>", Owned<Local, unsync::Arena>);
+    row!(out, "RefMut<plain,sync>", RefMut<'static, Plain, sync::Arena>);
+    row!(out, "RefMut<plain,unsync>", RefMut<'static, Plain, unsync::Arena>);
+    row!(out, "RefMut<local,sync>", RefMut<'static, Local, sync::Arena>);
+    row!(out, "RefMut<local,unsync>", RefMut<'static, Local, unsync::Arena>);
+    out
+  }
+}
+
 /// Controlled scheduler (`sched` binary, PROTOCOL_SCHED.md); a child module so that it can re-use
 /// the private executor.
 pub mod sched;
